@@ -201,10 +201,15 @@ def run_result(case, ctx):
     if op == "arith":
         a, b = Vector(case["a"]), Vector(case["b"])
         import operator as o
-        for name, f in (("add", o.add), ("sub", o.sub), ("mul", o.mul), ("truediv", o.truediv)):
-            for rhs, tag in ((b, "vec"), (case["scalar"], "scalar"), (case["b"], "list")):
+        sc = case["scalar"]
+        same_kind_scalars = [x for x in case["a"] if x is not None][:1] + [-1, 2, 0.5, -2.5, True]
+        for name, f in (("add", o.add), ("sub", o.sub), ("mul", o.mul), ("truediv", o.truediv),
+                        ("floordiv", o.floordiv), ("mod", o.mod), ("pow", o.pow)):
+            forms = [(b, "vec"), (sc, "scalar"), (case["b"], "list")] + [(x, "scalar") for x in same_kind_scalars]
+            forms += [(sc, "rscalar")] + [(x, "rscalar") for x in same_kind_scalars]
+            for rhs, tag in forms:
                 try:
-                    r = f(a, rhs)
+                    r = f(rhs, a) if tag == "rscalar" else f(a, rhs)
                 except Exception:  # noqa: BLE001  (ZeroDivisionError etc.: Python-undefined)
                     ctx.python_undefined()
                     continue
